@@ -427,6 +427,28 @@ fn via_builder(c: &Checksum<'_>, model: &Model, typed: bool, spell_seed: u64, at
     check_purl_level(&purl, model, at)?;
     reparse_printed(&purl.to_string(), model, at)?;
 
+    // The other built-in type parameters carry the checksum the same way.
+    {
+        use std::borrow::Cow;
+        let text = respell(model, spell_seed);
+        let built = guarded(move || {
+            GenericPurlBuilder::new(Cow::Borrowed("Generic"), "n").with_qualifier("checksum", text).and_then(|b| b.build())
+        })
+        .map_err(|p| violation!("C12.panic_in_build", "{at}: the Cow<str> builder panicked: {p}"))?
+        .map_err(|e| violation!("C12.build_refused_valid_checksum", "{at}: the Cow<str> builder refused checksum entries {:?}: {e}", model))?;
+        check_purl_level(&built, model, at)?;
+        #[cfg(feature = "full")]
+        {
+            let text = respell(model, spell_seed);
+            let built = guarded(move || {
+                GenericPurlBuilder::new(purl::SmallString::from("generic"), "n").with_qualifier("checksum", text).and_then(|b| b.build())
+            })
+            .map_err(|p| violation!("C12.panic_in_build", "{at}: the SmallString builder panicked: {p}"))?
+            .map_err(|e| violation!("C12.build_refused_valid_checksum", "{at}: the SmallString builder refused checksum entries {:?}: {e}", model))?;
+            check_purl_level(&built, model, at)?;
+        }
+    }
+
     #[cfg(feature = "full")]
     {
         use purl::{PackageType, PurlBuilder};
@@ -484,6 +506,13 @@ fn via_parser(model: &Model, spell_seed: u64, at: &str, log: &mut Log) -> Result
         })?;
     check_purl_level(&purl, model, &format!("{at} input {input:?}"))?;
     reparse_printed(&purl.to_string(), model, at)?;
+    #[cfg(feature = "full")]
+    {
+        let purl = guarded(|| GenericPurl::<purl::SmallString>::from_str(&input))
+            .map_err(|p| violation!("C12.panic_in_parse", "{at}: parsing {input:?} as GenericPurl<SmallString> panicked: {p}"))?
+            .map_err(|e| violation!("C12.parser_refused_valid_checksum", "{at}: {input:?} is refused as GenericPurl<SmallString>: {e}"))?;
+        check_purl_level(&purl, model, &format!("{at} input {input:?} (SmallString)"))?;
+    }
     #[cfg(feature = "full")]
     {
         let typed_input = input.replacen("generic", "npm", 1).replacen("GENERIC", "NPM", 1);
